@@ -64,11 +64,17 @@ type part struct {
 func (g *gen) genParts(root *gorm.DB) []part {
 	var parts []part
 	n := g.r.Range(1, 5)
+	if g.forceN > 0 {
+		n = g.forceN
+	}
 	used := map[int]bool{}
 	for i := 0; i < n; i++ {
 		k := g.r.Intn(14)
+		if g.forceK > 0 {
+			k = g.forceK
+		}
 		// later Select / Order(expr) / Table calls replace earlier ones: at most one each
-		if k >= 6 && k <= 10 {
+		if k >= 6 && k <= 10 && g.forceK <= 0 {
 			if used[k] {
 				k = 0
 			}
@@ -112,7 +118,7 @@ func (g *gen) genParts(root *gorm.DB) []part {
 			default:
 				parts = append(parts, part{kind: "select", desc: fmt.Sprintf("Select(%q, %#v)", q, l.val), leaves: []*leaf{l}, apply: func(db *gorm.DB) *gorm.DB { return db.Select(q, l.val) }})
 			}
-		case k == 7 && g.r.Bool():
+		case k == 7 && g.forceK <= 0 && g.r.Bool():
 			// association join whose ON conditions come from a handle with one to three conditions
 			n := g.r.Range(1, 3)
 			cs := make([]cond, n)
@@ -261,6 +267,9 @@ type outcome struct {
 	// noMain: the operation runs its statements on handles of its own (CreateInBatches): the handle it returns
 	// exposes none of them; only "nothing is sent" is checked
 	noMain bool
+	// rows: for a create of several rows, the leaves of each row in row order (every one of them must be bound inside
+	// the values of its own row)
+	rows [][]*leaf
 }
 
 // runChain builds the chain on db and executes the finisher; returns the statement.
@@ -279,6 +288,9 @@ func (g *gen) runChainOn(root, db *gorm.DB, parts []part, fin string) (out outco
 		}
 		db = p.apply(db)
 		d = append(d, p.desc)
+	}
+	if g.midHook != nil {
+		g.midHook()
 	}
 	requireKinds = map[string]bool{}
 	all := func() {
@@ -396,8 +408,21 @@ func (g *gen) runChainOn(root, db *gorm.DB, parts []part, fin string) (out outco
 			m2[k] = l.val
 			ls2 = append(ls2, l)
 		}
+		// the rows may name different keys: a key a row does not name is NULL in that row and nowhere else
+		if len(keys) > 1 && g.r.Intn(2) == 0 {
+			drop := keys[g.r.Intn(len(keys))]
+			kept := ls1[:0:0]
+			for _, l := range ls1 {
+				if l.col != strings.ToLower(drop) {
+					kept = append(kept, l)
+				}
+			}
+			ls1 = kept
+			delete(m1, drop)
+		}
 		finLeaves = append(ls1, ls2...)
 		res = db.Model(&Tag{}).Create([]map[string]interface{}{m1, m2})
+		return outcome{sql: res.Statement.SQL.String(), vars: res.Statement.Vars, err: res.Error, res: res, rows: [][]*leaf{ls1, ls2}}, "db." + strings.Join(append(d, "Create([]map{row1 names a subset of row2's keys})"), "."), requireKinds, finLeaves
 	case "UpsertDoUpdates":
 		t, ls := g.tagRecord()
 		l1 := g.newLeaf("c1", "string")
@@ -495,7 +520,52 @@ func run(c *core.Ctx) {
 		root := base.Session(&gorm.Session{})
 		parts := g.genParts(root)
 		fin := core.Pick(g.r, finishers)
-		out, desc, req, finLeaves := g.runChain(root, parts, fin)
+		var out outcome
+		var desc string
+		var req map[string]bool
+		var finLeaves []*leaf
+		if g.r.Chance(1, 5) {
+			// the chain starts from a reusable handle that already carries 1..7 parts of one form (joins with arguments,
+			// conditions, havings, clause conditions), and a sibling chain is derived from that handle (and possibly
+			// executed) between this chain's last method and its finisher: the sibling's values are not this chain's
+			g.forceK, g.forceN = core.Pick(g.r, []int{7, 7, 1, 8, 11}), g.r.Range(1, 7)
+			prefix := g.genParts(root)
+			same := g.r.Bool()
+			if same {
+				g.forceN = g.r.Range(1, 2)
+				parts = g.genParts(root)
+			}
+			g.forceN = 1
+			if !same {
+				g.forceK, g.forceN = 0, 0
+			}
+			decoy := g.genParts(root)
+			g.forceK, g.forceN = 0, 0
+			hd := root
+			for _, p := range prefix {
+				hd = p.apply(hd)
+			}
+			hd = hd.Session(&gorm.Session{})
+			runDecoy := g.r.Bool()
+			g.midHook = func() {
+				d := hd
+				for _, p := range decoy {
+					if p.kind != "table" {
+						d = p.apply(d)
+					}
+				}
+				if runDecoy {
+					d.Find(&[]Tag{})
+				}
+			}
+			out, desc, req, finLeaves = g.runChainOn(root, hd, parts, fin)
+			g.midHook = nil
+			desc = fmt.Sprintf("h := db.%s.Session(&Session{}); a sibling h.%s is built%s before the finisher of h.%s", descOf(prefix), descOf(decoy), map[bool]string{true: " and executed", false: ""}[runDecoy], desc)
+			parts = append(prefix, parts...)
+			c.Inc("chains_with_sibling_on_shared_handle")
+		} else {
+			out, desc, req, finLeaves = g.runChain(root, parts, fin)
+		}
 		c.Logf("CHAIN %s", desc)
 		c.Inc("chains")
 		c.Inc("fin_" + fin)
@@ -514,6 +584,18 @@ func run(c *core.Ctx) {
 		}
 		g.must(finLeaves...)
 		problems := g.checkStatement(out.sql, out.vars, numbered, true)
+		if n := len(out.rows); n > 0 && len(out.vars)%n == 0 {
+			width := len(out.vars) / n
+			for r, ls := range out.rows {
+				for _, l := range ls {
+					for i, v := range out.vars {
+						if serialOf(v) == l.serial && i/width != r {
+							problems = append(problems, fmt.Sprintf("the value given for column %s in row %d is bound among the values of row %d", l.col, r+1, i/width+1))
+						}
+					}
+				}
+			}
+		}
 		if len(problems) > 0 {
 			c.Violation(fin+"/"+kinds(parts), map[string]interface{}{"chain": desc, "dialect": map[bool]string{false: "?", true: "$n"}[numbered],
 				"sql": out.sql, "vars": renderVars(out.vars), "problems": problems})
@@ -531,6 +613,14 @@ func run(c *core.Ctx) {
 	if c.Case%4 == 0 {
 		realPass(c)
 	}
+}
+
+func descOf(parts []part) string {
+	ds := make([]string, len(parts))
+	for i, p := range parts {
+		ds[i] = p.desc
+	}
+	return strings.Join(ds, ".")
 }
 
 func kinds(parts []part) string {
